@@ -23,7 +23,7 @@ GROUP = 'MYMASK'
 LABELS = ['ALPHA', 'BETA', 'GAMMA', 'DELTA']
 
 
-def build_file(ctx, nlabels, with_alias=True, top_bit=False):
+def build_file(ctx, nlabels, with_alias=True, top_bit=False, one_digit=False):
     """maskbits file with symbolic bit numbers; returns (text, list of (label, bit Z))"""
     lines = ['typedef struct {', ' char flag[20];', ' short bit;', ' char label[30];', ' char description[100];', '} maskbits;', '',
              'typedef struct {', ' char flag[20];', ' char alias[20];', '} maskalias;', '']
@@ -41,7 +41,7 @@ def build_file(ctx, nlabels, with_alias=True, top_bit=False):
             ctx.add(z3.And(d0 >= 48, d0 <= 57, d1 >= 48, d1 <= 57))
             ctx.declare_domain(d0, range(48, 58))
             ctx.declare_domain(d1, range(48, 58))
-            two = bool(ctx.bool('bit%d_two' % i))
+            two = bool(ctx.bool('bit%d_two' % i)) if not one_digit else False
             if two:
                 ctx.add(d0 != 48)
                 digits = [d0, d1]
@@ -73,12 +73,12 @@ def sym_case(ctx, name, tag):
     return SStr.mk(items)
 
 
-def _setup(ctx, nlabels, with_alias=True, top_bit=False):
+def _setup(ctx, nlabels, with_alias=True, top_bit=False, one_digit=False):
     import pydl.pydlutils.yanny as ymod
     import pydl.pydlutils.sdss as sdss
     fs = FS()
     saved = install(ymod, fs)
-    text, defs = build_file(ctx, nlabels, with_alias, top_bit)
+    text, defs = build_file(ctx, nlabels, with_alias, top_bit, one_digit)
     fs.files['/d/mask.par'] = text
     try:
         sdss.maskbits = sdss.set_maskbits(maskbits_file='/d/mask.par')
@@ -118,9 +118,9 @@ def ob_flagval(nlabels, subset, use_alias):
                       bounds='%d labels with symbolic bit numbers (one at bit 63), subset %s' % (nlabels, list(subset)), max_paths=400000, max_seconds=1700)
 
 
-def ob_flagname(nlabels, popcount):
+def ob_flagname(nlabels, popcount, one_digit=False):
     def fn(ctx):
-        sdss, defs = _setup(ctx, nlabels)
+        sdss, defs = _setup(ctx, nlabels, one_digit=one_digit)
         d = {'fn': 'flagname', 'nlabels': nlabels, 'popcount': popcount}
         ctx.detail = d
         # the queried value: up to `popcount` set bits at solver-chosen positions (concretised on demand)
@@ -153,7 +153,7 @@ def ob_flagname(nlabels, popcount):
         ctx.require(bt == (v.term & defined), 'value -> names -> value is the identity on defined bits', d)
         s = sdss.sdss_flagname(GROUP, np.uint64(val), concat=True)
         ctx.require(str(s) == ' '.join(got), 'concat form joins the same names with blanks', d)
-    return Obligation('flagname labels=%d popcount<=%d' % (nlabels, popcount), fn, bounds='every 64-bit value with <= %d set bits' % popcount,
+    return Obligation('flagname labels=%d popcount<=%d one_digit=%d' % (nlabels, popcount, one_digit), fn, bounds='every 64-bit value with <= %d set bits' % popcount,
                       max_paths=600000, max_seconds=1700)
 
 
@@ -189,8 +189,8 @@ def obligations(tier, seed):
     obs = []
     obs.append(ob_flagval(2, (0,), False))
     obs.append(ob_flagval(2, (1, 0), True))
-    obs.append(ob_flagval(3, (2, 0), False))
-    obs.append(ob_flagname(2, 1))
+    obs.append(ob_flagval(3, (2, 0), False) if not q else ob_flagval(2, (1,), False))
+    obs.append(ob_flagname(2, 1, one_digit=q))
     obs.append(ob_errors(2))
     if not q:
         obs.append(ob_flagval(3, (0, 1, 2), True))
